@@ -1192,6 +1192,28 @@ def _m_result_map(eng, st, callee, args, ev):
     """Result::map(r, closure): Ok payload transformed by the (capture-free or not) closure, tag kept."""
     r, c = args[0], args[1]
     canon = None
+    if c[0] == "fn" and isinstance(c[2], dict):
+        fd = c[2]
+        pay = ok_payload(r)
+        dk = fd.get("dk") or ""
+        if dk.startswith("Ctor"):
+            cn = fd.get("canon") or ""
+            parent = cn.rsplit("::{constructor", 1)[0]
+            adt = eng.facts.adt_by_canon(parent) if hasattr(eng.facts, "adt_by_canon") else None
+            if dk.startswith("Ctor(Struct"):
+                return ("map_ok", r, ("agg", "adt", parent.split("::", 1)[-1] if "::" in parent else parent, fd.get("name"), ("0",), (pay,), 0))
+            # enum variant constructor: Option::Some / Result::Ok / Result::Err and local enums
+            vname = fd.get("name")
+            known = {"Some": ("core::option::Option", 1), "Ok": ("core::result::Result", 0), "Err": ("core::result::Result", 1)}
+            if vname in known and (fd.get("krate") == "core"):
+                return ("map_ok", r, ("agg", "adt", known[vname][0], vname, ("0",), (pay,), known[vname][1]))
+            return NotImplemented
+        m = eng.models.get(callee_key(fd))
+        if m is not None:
+            v = m(eng, st, fd, [pay], ev)
+            if v is not NotImplemented:
+                return ("map_ok", r, v)
+        return NotImplemented
     if c[0] == "agg" and c[1] == "closure":
         canon = c[2]
     elif c[0] == "closure":
